@@ -230,7 +230,11 @@ def real_after_edit(f, q):
     except Exception:
         pass
     for m in f["models"]:
-        for have, want in zip(L.graph.models[m["name"]].relationships, m["rels"]):
+        # matched by related model and key (not by position: a model registered through inheritance resolution keeps its items in another order)
+        pool = list(L.graph.models[m["name"]].relationships)
+        for want in m["rels"]:
+            have = next(h for h in pool if h.name == want["name"] and h.foreign_key == want.get("foreign_key") and h.type == SWAP.get(want["type"], want["type"]))
+            pool.remove(have)
             have.type = want["type"]
     L.graph.build_adjacency()
     cur = L.conn.execute(L.compile(**kw))
